@@ -34,6 +34,7 @@ SOURCES = [
     # module-level variables named like the parameters / locals of the other sources, and the other way round
     ("globals-named-like-locals", "int a;\nfloat x;\nint t;\nint i;\nint v;\nfloat3 w;\nfloat3 r;\nexport function f(int q) -> int { a = q; t = a + 1; i = t; v = i; x = 0.5; return t + v; }\n"),
     ("locals-named-like-globals", "export function f(int g0, float gs) -> float { int ga = g0 + 1; float n = gs; return ga + n; }\n"),
+    ("imports-with-clashing-struct", 'import "ld";\nimport "le";\nimport "lf";\nexport function f(int a) -> float { Light l; l.intensity = a; return l.intensity; }\n'),
     # parameters without a name (placeholder names), twice, in different positions
     ("unnamed-parameters", "function g(float x, int) -> float { return x * 2.0; }\nfunction h(int, float, int q) -> int { return q + 1; }\nexport function f(int a, float x) -> float { return g(x, a) + h(a, x, a); }\n"),
     ("unnamed-parameter-first", "function g(int, float y) -> float { return y + 0.5; }\nexport function f(int a, float x) -> float { return g(a, x); }\n"),
@@ -46,7 +47,11 @@ SOURCES = [
     ("rejected-typing", "export function f(int a, float2 v) -> int { return a + v; }\n"),
     ("fails-lowering", "function g(int a) -> int;\nexport function f(int a) -> int { return a; }\n"),
 ]
-LIBS = {"la": "function fa(int a) -> int { return a + 1; }\n", "lb": "function fb(int a) -> int { return a + 2; }\n", "lc": "function fc(int a) -> int { return a + 3; }\n"}
+LIBS = {"la": "function fa(int a) -> int { return a + 1; }\n", "lb": "function fb(int a) -> int { return a + 2; }\n", "lc": "function fc(int a) -> int { return a + 3; }\n",
+        # two libraries that define a struct of the same name differently (whatever the compiler makes of importing both, it makes the same of it every time)
+        "ld": "struct Light { float intensity; }\nfunction fd(Light l) -> float { return l.intensity; }\n",
+        "le": "struct Light { int intensity; float range; }\nfunction fe(Light l) -> float { return l.range; }\n",
+        "lf": "struct Light { float range; int intensity; int kind; }\nfunction ff(Light l) -> int { return l.kind; }\n"}
 OPTIONS = [("plain", {}), ("optimize", {"optimize": True}), ("wasm", {"wasm": True})]
 PROBES = [(si, oi) for si in range(len(SOURCES)) for oi in range(len(OPTIONS))]
 
